@@ -640,6 +640,24 @@ harness! {
     }
 }
 
+/// canary: claims a removed source's late message still reaches selection -- must be refuted
+harness! {
+    #[kani::stub(super::select::select, select_stub)]
+    #[kani::stub(super::combiner::combine, combine_stub)]
+    #[kani::stub(super::source::KalmanState::progress_time, progress_time_stub)]
+    #[kani::stub(std::process::exit, exit_stub)]
+    #[kani::unwind(3)]
+    fn c37_canary_removed_source_still_counts() {
+        let time = NtpTimestamp::from_bits(kani::any());
+        let mut c = any_controller();
+        c.sources.insert(ClockId(11), (None, true));
+        c.remove_source(ClockId(11));
+        SEL_RETURN_ALL.store(false, Relaxed);
+        let _ = c.source_message(ClockId(11), KalmanSourceMessage { inner: any_snapshot(11, time) });
+        assert!(SEL_N.load(Relaxed) == 1);
+    }
+}
+
 harness! {
     #[kani::stub(super::select::select, select_stub)]
     #[kani::stub(super::combiner::combine, combine_stub)]
